@@ -11,6 +11,8 @@ var Registry = map[string]Rule{
 	"C03": C03,
 	"C05": C05,
 	"C06": C06,
+	"C07": C07,
+	"C08": C08,
 	"C09": C09,
 	"C10": C10,
 	"C12": C12,
